@@ -1,12 +1,8 @@
 // Package c47 decides property C47: container data is discarded only when the
 // container is gone or long unpaid.
 //
-// Exhaustive enumeration of the stated finite domain
-//
-//	processed epoch 0..10 × unpaid-since −1..12 × payments on/off ×
-//	container source {found, not found, transient error} × payment-check error on/off
-//
-// (1848 cells) through
+// Exhaustive enumeration of the stated finite domain (package cells: 1848
+// cells) through
 //   - the shard new-epoch handler (shard.setEpochEventHandler via the export
 //     shim VerifNewEpoch) on a real shard with a scripted ContainerPayments
 //     (TestC47ShardEpoch; one shard per (epoch, payments, delivery mode), one
@@ -24,330 +20,26 @@
 //	          ∨ payments on ∧ no payment-check error ∧ 0 ≤ unpaidSince ≤ epoch ∧ epoch−unpaidSince ≥ 3   (epoch handler)
 //
 // "discarded" is observed through the public read API (Get → ObjectNotFound for
-// every object of the container, container absent from ListContainers) and
-// "kept" means every object is still returned byte-exact, also after GC passes.
+// every object of the container) and "kept" means every object is still
+// returned byte-exact (and the container is listed), also after GC passes.
 package c47
 
 import (
-	"bytes"
 	"context"
-	"crypto/sha256"
 	"errors"
 	"fmt"
 	"os"
 	"sort"
-	"sync"
 	"testing"
 
-	"github.com/nspcc-dev/neofs-node/pkg/local_object_storage/blobstor/fstree"
 	"github.com/nspcc-dev/neofs-node/pkg/local_object_storage/engine"
-	"github.com/nspcc-dev/neofs-node/pkg/local_object_storage/shard"
+	"github.com/nspcc-dev/neofs-node/verifharness/c47/cells"
 	"github.com/nspcc-dev/neofs-node/verifharness/ev"
 	"github.com/nspcc-dev/neofs-node/verifharness/stor"
-	"github.com/nspcc-dev/neofs-sdk-go/checksum"
-	apistatus "github.com/nspcc-dev/neofs-sdk-go/client/status"
-	"github.com/nspcc-dev/neofs-sdk-go/container"
 	cid "github.com/nspcc-dev/neofs-sdk-go/container/id"
 	"github.com/nspcc-dev/neofs-sdk-go/object"
 	oid "github.com/nspcc-dev/neofs-sdk-go/object/id"
-	"github.com/nspcc-dev/neofs-sdk-go/user"
-	"github.com/nspcc-dev/neofs-sdk-go/version"
 )
-
-// FPUnderflow is the fingerprint of the suspected defect: the unsigned
-// subtraction epoch−unpaidSince in shard/gc.go wraps when unpaidSince > epoch.
-const fpUnderflow = "C47:unpaid-since-after-epoch-underflow"
-
-const (
-	minEpoch, maxEpoch   = 0, 10
-	minUnpaid, maxUnpaid = -1, 12
-	grace                = 3
-)
-
-const (
-	srcFound = iota
-	srcNotFound
-	srcTransient
-)
-
-var srcNames = [...]string{"found", "not-found", "transient"}
-
-// cell is one point of the enumerated domain.
-type cell struct {
-	Epoch  int  `json:"epoch"`
-	Unpaid int  `json:"unpaid_since"`
-	PayOn  bool `json:"payments_on"`
-	Src    int  `json:"source"`
-	PayErr bool `json:"payment_check_error"`
-}
-
-func (c cell) String() string {
-	return fmt.Sprintf("epoch=%d unpaidSince=%d payments=%v source=%s payErr=%v", c.Epoch, c.Unpaid, c.PayOn, srcNames[c.Src], c.PayErr)
-}
-
-// unpaidLong is the reference decision of the epoch handler, straight from the
-// property text: unpaid for at least the grace period counted from the epoch
-// being processed; marks newer than the processed epoch never count.
-func unpaidLong(c cell) bool {
-	return c.PayOn && !c.PayErr && c.Unpaid >= 0 && c.Unpaid <= c.Epoch && c.Epoch-c.Unpaid >= grace
-}
-
-// underflowClass tells whether the cell belongs to the suspected-defect class.
-func underflowClass(c cell) bool {
-	return c.PayOn && !c.PayErr && c.Unpaid >= 0 && c.Unpaid > c.Epoch
-}
-
-// nontrivial: at least one discard-capable input is active in the cell.
-func nontrivial(c cell) bool {
-	return c.Src != srcFound || c.PayErr || (c.PayOn && c.Unpaid >= 0) || (!c.PayOn && c.Unpaid >= 0)
-}
-
-// cnrOf maps the in-shard part of a cell to a distinct container ID.
-func cnrOf(unpaid, src int, payErr bool) cid.ID {
-	var c cid.ID
-	c[0] = byte(unpaid - minUnpaid + 1)
-	c[1] = byte(src + 1)
-	if payErr {
-		c[2] = 1
-	}
-	c[31] = 0x47
-	return c
-}
-
-const objsPerCnr = 2
-
-func mkObj(c cid.ID, i int) *object.Object {
-	var id oid.ID
-	copy(id[:], c[:8])
-	id[30], id[31] = 0xc4, byte(i+1)
-	o := object.New(c, user.NewFromScriptHash([20]byte{0x47, byte(i)}))
-	o.SetID(id)
-	v := version.Current()
-	o.SetVersion(&v)
-	p := []byte(fmt.Sprintf("payload-%x-%d", c[:3], i))
-	o.SetPayload(p)
-	o.SetPayloadSize(uint64(len(p)))
-	o.SetPayloadChecksum(checksum.NewSHA256(sha256.Sum256(p)))
-	return o
-}
-
-// blob writes are not under test here: no 10 ms combined-write batching window.
-var fastBlob = []fstree.Option{fstree.WithCombinedCountLimit(1)}
-
-var errPay = errors.New("FS chain RPC call: connection lost")
-
-// transient / not-found error spellings rotated over the cells.
-var (
-	notFoundErrs = []error{
-		apistatus.ContainerNotFound{},
-		apistatus.ErrContainerNotFound,
-		fmt.Errorf("read container by ID: %w", apistatus.ErrContainerNotFound),
-	}
-	transientErrs = []error{
-		errors.New("could not perform test invocation (getInfo): connection lost"),
-		context.DeadlineExceeded,
-		errors.New("container not found"), // text only, no status
-		apistatus.ObjectNotFound{},        // a different "not found" status
-		fmt.Errorf("read container by ID: %w", apistatus.ErrServerInternal),
-		apistatus.EACLNotFound{},
-	}
-)
-
-// source is a scripted containercore.Source.
-type source struct {
-	ans map[cid.ID]error
-}
-
-func (s *source) Get(c cid.ID) (container.Container, error) {
-	if err, ok := s.ans[c]; ok && err != nil {
-		return container.Container{}, err
-	}
-	return container.Container{}, nil
-}
-
-// inner enumerates the per-shard part of the domain.
-func inner(f func(unpaid, src int, payErr bool)) {
-	for u := minUnpaid; u <= maxUnpaid; u++ {
-		for s := srcFound; s <= srcTransient; s++ {
-			for _, pe := range []bool{false, true} {
-				f(u, s, pe)
-			}
-		}
-	}
-}
-
-func payments(on bool) *stor.Payments {
-	p := &stor.Payments{Disabled: !on, Since: map[cid.ID]int64{}, Err: map[cid.ID]error{}}
-	inner(func(u, s int, pe bool) {
-		c := cnrOf(u, s, pe)
-		p.Since[c] = int64(u)
-		if pe {
-			p.Err[c] = errPay
-		}
-	})
-	return p
-}
-
-// fill stores every object of every container (setup only, so it is done by a
-// few workers to let the metabase coalesce transactions).
-func fill(put func(*object.Object) error) {
-	var objs []*object.Object
-	inner(func(u, s int, pe bool) {
-		for i := 0; i < objsPerCnr; i++ {
-			objs = append(objs, mkObj(cnrOf(u, s, pe), i))
-		}
-	})
-	const workers = 8
-	var wg sync.WaitGroup
-	errs := make([]error, workers)
-	for w := 0; w < workers; w++ {
-		wg.Add(1)
-		go func() {
-			defer wg.Done()
-			for i := w; i < len(objs); i += workers {
-				if err := put(objs[i]); err != nil {
-					errs[w] = err
-					return
-				}
-			}
-		}()
-	}
-	wg.Wait()
-	for _, err := range errs {
-		if err != nil {
-			ev.Inconclusive("fill: %v", err)
-		}
-	}
-}
-
-type reader interface {
-	get(oid.Address) (*object.Object, error)
-}
-
-type shardReader struct{ s *shard.Shard }
-
-func (r shardReader) get(a oid.Address) (*object.Object, error) { return r.s.Get(a, false) }
-
-type engineReader struct{ e *engine.StorageEngine }
-
-func (r engineReader) get(a oid.Address) (*object.Object, error) {
-	return r.e.Get(context.Background(), a)
-}
-
-// observe returns (discarded, problem). discarded=false means every object of
-// the container was returned byte-exact.
-func observe(r reader, c cid.ID) (bool, error) {
-	var nf, ok int
-	for i := 0; i < objsPerCnr; i++ {
-		want := mkObj(c, i)
-		got, err := r.get(want.Address())
-		switch {
-		case err == nil:
-			if !bytes.Equal(got.Payload(), want.Payload()) || got.GetID() != want.GetID() {
-				return false, fmt.Errorf("object %d read back differently", i)
-			}
-			ok++
-		case errors.Is(err, apistatus.ErrObjectNotFound):
-			nf++
-		default:
-			return false, fmt.Errorf("object %d: unexpected read error %w", i, err)
-		}
-	}
-	if nf != 0 && ok != 0 {
-		return false, fmt.Errorf("container half discarded: %d objects kept, %d unavailable", ok, nf)
-	}
-	return nf != 0, nil
-}
-
-type failure struct {
-	c    cell
-	path string
-	msg  string
-}
-
-type collector struct {
-	rec      *ev.Recorder
-	fails    []failure
-	known    int
-	converse bool
-}
-
-// judge compares one observation with the reference decision.
-func (k *collector) judge(path string, c cell, want, got bool, obsErr error) {
-	k.judgeFrom(path, c, c.Epoch, want, got, obsErr)
-}
-
-// judgeFrom: first is the lowest epoch whose event was delivered before the
-// observation (== c.Epoch for a single event); the suspected-defect class is
-// "the unpaid mark is newer than SOME processed epoch".
-func (k *collector) judgeFrom(path string, c cell, first int, want, got bool, obsErr error) {
-	if obsErr != nil {
-		k.fails = append(k.fails, failure{c, path, obsErr.Error()})
-		return
-	}
-	if got == want {
-		return
-	}
-	if got && !want {
-		if d := c; path != "startup" && underflowClass(cell{first, d.Unpaid, d.PayOn, d.Src, d.PayErr}) {
-			if k.rec.Known(fpUnderflow) {
-				k.known++
-				k.rec.Label("known:unpaid-since-after-epoch")
-				return
-			}
-			k.fails = append(k.fails, failure{c, path, "container DISCARDED although its unpaid mark is newer than the processed epoch [" + fpUnderflow + "]"})
-			return
-		}
-		k.fails = append(k.fails, failure{c, path, "container DISCARDED although neither gone nor unpaid for the grace period"})
-		return
-	}
-	k.fails = append(k.fails, failure{c, path, "container KEPT although the reference decision is to discard it"})
-}
-
-func (k *collector) report(t *testing.T) {
-	if len(k.fails) == 0 {
-		return
-	}
-	sort.SliceStable(k.fails, func(i, j int) bool {
-		a, b := k.fails[i].c, k.fails[j].c
-		if a.Epoch != b.Epoch {
-			return a.Epoch < b.Epoch
-		}
-		if a.Unpaid != b.Unpaid {
-			return a.Unpaid < b.Unpaid
-		}
-		return a.Src < b.Src
-	})
-	f := k.fails[0]
-	msg := fmt.Sprintf("%d violating cells; minimal: path=%s %s: %s", len(k.fails), f.path, f.c, f.msg)
-	for i, g := range k.fails {
-		if i == 0 {
-			continue
-		}
-		if i > 8 {
-			msg += "\n  ..."
-			break
-		}
-		msg += fmt.Sprintf("\n  also: path=%s %s: %s", g.path, g.c, g.msg)
-	}
-	t.Fatal(msg)
-}
-
-// outer enumerates (epoch, payments on/off, mode) triples assigned to this process.
-func outer(modes int, f func(epoch int, payOn bool, mode int)) {
-	k, n := ev.Shard()
-	idx := 0
-	for e := minEpoch; e <= maxEpoch; e++ {
-		for _, on := range []bool{true, false} {
-			for m := 0; m < modes; m++ {
-				if idx%n == k {
-					f(e, on, m)
-				}
-				idx++
-			}
-		}
-	}
-}
 
 func contains(l []cid.ID, c cid.ID) bool {
 	for _, x := range l {
@@ -358,6 +50,8 @@ func contains(l []cid.ID, c cid.ID) bool {
 	return false
 }
 
+var modeNames = []string{"single", "sequence"}
+
 // TestC47ShardEpoch: the shard new-epoch handler. Delivery modes: 0 = a single
 // event for the processed epoch (the shard missed or never saw earlier ones –
 // the engine drops events of busy shards), 1 = events 0..epoch one after the
@@ -366,68 +60,69 @@ func contains(l []cid.ID, c cid.ID) bool {
 func TestC47ShardEpoch(t *testing.T) {
 	rec := ev.New("C47", "shard-epoch")
 	defer rec.Flush()
-	k := &collector{rec: rec}
-	outer(2, func(epoch int, payOn bool, mode int) {
+	k := &cells.Collector{Rec: rec}
+	cells.Outer(2, func(epoch int, payOn bool, mode int) {
 		dir, err := os.MkdirTemp("", "c47s")
 		if err != nil {
 			ev.Inconclusive("mkdtemp: %v", err)
 		}
 		defer os.RemoveAll(dir)
 		ep := &stor.Epoch{}
-		sh, err := stor.OpenShard(stor.ShardCfg{Dir: dir, Epoch: ep, Payments: payments(payOn), FSTOpts: fastBlob})
+		sh, err := stor.OpenShard(stor.ShardCfg{Dir: dir, Epoch: ep, Payments: cells.Payments(payOn), FSTOpts: cells.FastBlob})
 		if err != nil {
 			ev.Inconclusive("open shard: %v", err)
 		}
 		defer sh.Close()
-		fill(func(o *object.Object) error { return sh.Put(o, nil) })
+		cells.Fill(func(o *object.Object) error { return sh.Put(o, nil) })
+		first := epoch
 		if mode == 0 {
 			ep.Set(uint64(epoch))
 			sh.VerifNewEpoch(uint64(epoch))
 		} else {
+			first = 0
 			for e := 0; e <= epoch; e++ {
 				ep.Set(uint64(e))
 				sh.VerifNewEpoch(uint64(e))
 			}
 		}
+		get := func(a oid.Address) (*object.Object, error) { return sh.Get(a, false) }
 		check := func(stage string) {
 			list, err := sh.ListContainers()
 			if err != nil {
 				ev.Inconclusive("list containers: %v", err)
 			}
-			inner(func(u, s int, pe bool) {
-				c := cell{epoch, u, payOn, s, pe}
-				id := cnrOf(u, s, pe)
-				got, oerr := observe(shardReader{sh}, id)
+			cells.Inner(func(u, s int, pe bool) {
+				c := cells.Cell{Epoch: epoch, Unpaid: u, PayOn: payOn, Src: s, PayErr: pe}
+				id := cells.CnrOf(u, s, pe)
+				got, oerr := cells.Observe(get, id)
 				if oerr == nil && !got && !contains(list, id) {
 					oerr = errors.New("objects are readable but the container is missing from ListContainers")
 				}
-				first := epoch
-				if mode == 1 {
-					first = 0
-				}
-				k.judgeFrom("shard-epoch/"+stage, c, first, unpaidLong(c), got, oerr)
+				k.Judge("shard-epoch/"+stage, c, true, first, cells.UnpaidLong(c), got, oerr)
 			})
 		}
-		check([]string{"single", "sequence"}[mode])
+		check(modeNames[mode])
 		// kept containers must survive GC passes physically
 		sh.VerifGCPass()
 		sh.VerifGCPass()
-		check([]string{"single", "sequence"}[mode] + "+gc")
-		inner(func(u, s int, pe bool) {
-			c := cell{epoch, u, payOn, s, pe}
+		check(modeNames[mode] + "+gc")
+		cells.Inner(func(u, s int, pe bool) {
+			c := cells.Cell{Epoch: epoch, Unpaid: u, PayOn: payOn, Src: s, PayErr: pe}
 			lbl := "keep"
-			if unpaidLong(c) {
+			if cells.UnpaidLong(c) {
 				lbl = "discard"
 			}
-			rec.Case(nontrivial(c), fmt.Sprintf("shard/%d/%v", mode, c), "shard:"+lbl, "shard:mode-"+[]string{"single", "sequence"}[mode])
+			rec.Case(cells.Nontrivial(c), fmt.Sprintf("shard/%d/%v", mode, c), "shard:"+lbl, "shard:mode-"+modeNames[mode])
 			if rec.WantSample() && c.Epoch == 4 && u >= 0 && u <= 5 && s == 0 && !pe && mode == 0 {
-				rec.Sample(map[string]any{"path": "shard-epoch", "cell": c, "expect_discard": unpaidLong(c)})
+				rec.Sample(map[string]any{"path": "shard-epoch", "cell": c, "expect_discard": cells.UnpaidLong(c)})
 			}
 		})
 	})
 	rec.Set("exhaustive", true)
-	rec.Set("domain", "epoch 0..10 x unpaidSince -1..12 x payments on/off x source 3 x payErr 2 = 1848 cells, x2 delivery modes")
-	k.report(t)
+	rec.Set("domain", "epoch 0..10 x unpaidSince -1..12 x payments on/off x source 3 x payErr 2 = 1848 cells (x2 delivery modes on the shard path)")
+	if msg := k.Report(); msg != "" {
+		t.Fatal(msg)
+	}
 }
 
 // TestC47EngineStartup: engine.Init's cleanup of containers the source does not
@@ -435,9 +130,9 @@ func TestC47ShardEpoch(t *testing.T) {
 func TestC47EngineStartup(t *testing.T) {
 	rec := ev.New("C47", "engine-startup")
 	defer rec.Flush()
-	k := &collector{rec: rec}
+	k := &cells.Collector{Rec: rec}
 	ctx := context.Background()
-	outer(1, func(epoch int, payOn bool, _ int) {
+	cells.Outer(1, func(epoch int, payOn bool, _ int) {
 		dir, err := os.MkdirTemp("", "c47e")
 		if err != nil {
 			ev.Inconclusive("mkdtemp: %v", err)
@@ -446,8 +141,8 @@ func TestC47EngineStartup(t *testing.T) {
 		ep := &stor.Epoch{}
 		cfgs := func() []stor.ShardCfg {
 			return []stor.ShardCfg{
-				{Dir: dir + "/s0", Epoch: ep, Payments: payments(payOn), FSTOpts: fastBlob},
-				{Dir: dir + "/s1", Epoch: ep, Payments: payments(payOn), FSTOpts: fastBlob},
+				{Dir: dir + "/s0", Epoch: ep, Payments: cells.Payments(payOn), FSTOpts: cells.FastBlob},
+				{Dir: dir + "/s1", Epoch: ep, Payments: cells.Payments(payOn), FSTOpts: cells.FastBlob},
 			}
 		}
 		// phase 0: fill without a container source
@@ -455,31 +150,21 @@ func TestC47EngineStartup(t *testing.T) {
 		if err != nil {
 			ev.Inconclusive("open engine: %v", err)
 		}
-		fill(func(o *object.Object) error { return e0.E.Put(ctx, o, nil) })
+		cells.Fill(func(o *object.Object) error { return e0.E.Put(ctx, o, nil) })
 		if err := e0.E.Close(); err != nil {
 			ev.Inconclusive("engine close: %v", err)
 		}
 		// phase 1: restart with the scripted source
-		src := &source{ans: map[cid.ID]error{}}
-		n := epoch*2 + 1
-		inner(func(u, s int, pe bool) {
-			n++
-			switch s {
-			case srcNotFound:
-				src.ans[cnrOf(u, s, pe)] = notFoundErrs[n%len(notFoundErrs)]
-			case srcTransient:
-				src.ans[cnrOf(u, s, pe)] = transientErrs[n%len(transientErrs)]
-			}
-		})
-		e1, err := stor.OpenEngine(cfgs(), engine.WithContainersSource(src))
+		e1, err := stor.OpenEngine(cfgs(), engine.WithContainersSource(cells.NewSource(epoch*2+1)))
 		if err != nil {
 			t.Fatalf("engine start with container source failed (epoch=%d payments=%v): %v", epoch, payOn, err)
 		}
 		defer e1.E.Close()
-		inner(func(u, s int, pe bool) {
-			c := cell{epoch, u, payOn, s, pe}
-			got, oerr := observe(engineReader{e1.E}, cnrOf(u, s, pe))
-			k.judge("startup", c, s == srcNotFound, got, oerr)
+		get := func(a oid.Address) (*object.Object, error) { return e1.E.Get(ctx, a) }
+		cells.Inner(func(u, s int, pe bool) {
+			c := cells.Cell{Epoch: epoch, Unpaid: u, PayOn: payOn, Src: s, PayErr: pe}
+			got, oerr := cells.Observe(get, cells.CnrOf(u, s, pe))
+			k.Judge("startup", c, false, 0, cells.Gone(c), got, oerr)
 		})
 		// phase 2: the epoch event reaches every shard
 		ep.Set(uint64(epoch))
@@ -493,29 +178,31 @@ func TestC47EngineStartup(t *testing.T) {
 			shards[id].VerifNewEpoch(uint64(epoch))
 		}
 		for pass := 0; pass < 2; pass++ {
-			inner(func(u, s int, pe bool) {
-				c := cell{epoch, u, payOn, s, pe}
-				got, oerr := observe(engineReader{e1.E}, cnrOf(u, s, pe))
-				k.judge("startup+epoch", c, s == srcNotFound || unpaidLong(c), got, oerr)
+			cells.Inner(func(u, s int, pe bool) {
+				c := cells.Cell{Epoch: epoch, Unpaid: u, PayOn: payOn, Src: s, PayErr: pe}
+				got, oerr := cells.Observe(get, cells.CnrOf(u, s, pe))
+				k.Judge("startup+epoch", c, true, epoch, cells.Gone(c) || cells.UnpaidLong(c), got, oerr)
 			})
 			for _, id := range ids {
 				shards[id].VerifGCPass()
 			}
 		}
-		inner(func(u, s int, pe bool) {
-			c := cell{epoch, u, payOn, s, pe}
+		cells.Inner(func(u, s int, pe bool) {
+			c := cells.Cell{Epoch: epoch, Unpaid: u, PayOn: payOn, Src: s, PayErr: pe}
 			lbl := "keep"
-			if s == srcNotFound {
+			if cells.Gone(c) {
 				lbl = "discard-gone"
-			} else if unpaidLong(c) {
+			} else if cells.UnpaidLong(c) {
 				lbl = "discard-unpaid"
 			}
-			rec.Case(nontrivial(c), fmt.Sprintf("engine/%v", c), "engine:"+lbl, "engine:src-"+srcNames[s])
+			rec.Case(cells.Nontrivial(c), fmt.Sprintf("engine/%v", c), "engine:"+lbl, "engine:src-"+cells.SrcNames[s])
 			if rec.WantSample() && c.Epoch == 3 && u == 0 && !pe {
-				rec.Sample(map[string]any{"path": "engine-startup+epoch", "cell": c, "expect_discard": s == srcNotFound || unpaidLong(c)})
+				rec.Sample(map[string]any{"path": "engine-startup+epoch", "cell": c, "expect_discard": cells.Gone(c) || cells.UnpaidLong(c)})
 			}
 		})
 	})
 	rec.Set("exhaustive", true)
-	k.report(t)
+	if msg := k.Report(); msg != "" {
+		t.Fatal(msg)
+	}
 }
